@@ -44,6 +44,9 @@ type Answer struct {
 	// "ignore" (nothing with the requested header), "garbage".
 	Class    string
 	ConnOpen int // number of connections ever opened to the peer when it answered
+	// HungUp: event number of the peer closing its connection after the
+	// answer was written (0: it did not).
+	HungUp int64 `json:",omitempty"`
 }
 
 type streamKey struct {
@@ -199,7 +202,17 @@ func (d *director) build(st Step, n *chaingen.Node, base bool) []out {
 	case KHonestThenBad:
 		return []out{truth(), {blk: mutate(st.Sub, n.Block, d.rng), enc: d.encFor(st.Sub, enc)}}
 	default:
-		return []out{{blk: mutate(st.K, n.Block, d.rng), enc: enc}}
+		var r []out
+		var rep *chaingen.Node
+		for i := 0; i < st.Before; i++ {
+			// Up to 8 different bystander blocks; a longer run repeats one
+			// (duplicates are part of the statement's quantifier too).
+			if rep == nil || st.Before <= 8 {
+				rep = d.otherBlock(n)
+			}
+			r = append(r, out{blk: rep.Block, enc: enc})
+		}
+		return append(r, out{blk: mutate(st.K, n.Block, d.rng), enc: enc})
 	}
 }
 
@@ -267,6 +280,18 @@ func (d *director) serve(p *netsim.Peer, iv *wire.InvVect) {
 		ls = append(ls, pt.Label)
 	}
 	d.w.Log.Add(p.Addr, "tx", "c06-answer", fmt.Sprintf("h=%d step=%s parts=%v class=%s", n.Height, st, ls, a.Class))
+	if st.HangUp > 0 && conn != nil {
+		// Every byte of the answer is in the connection's buffer (writes
+		// never block and never drop); the client's end reads all of it
+		// before it sees the end of the stream.
+		if st.HangUp > 1 {
+			d.mu.Unlock()
+			time.Sleep(time.Duration(st.HangUp) * time.Millisecond)
+			d.mu.Lock()
+		}
+		_ = conn.Close()
+		a.HungUp = d.w.Log.Add(p.Addr, "ev", "disconnect", "by peer (c06: hang-up after the answer)")
+	}
 }
 
 func classify(parts []Part) string {
@@ -611,9 +636,20 @@ func Scenario(seed int64, k int, res *l2.Result) {
 			continue
 		}
 		addr := p.Addr
-		if !l2.WaitFor(30*time.Second, func() bool { return w.Net.OpenConns(addr) == 0 }) {
+		// Per connection (those that exist now): the short-lived redials
+		// overlap under load, so "none open at a sampling instant" would be
+		// decided by the scheduler.
+		recs := w.Net.ConnRecs(addr)
+		if !l2.WaitFor(60*time.Second, func() bool {
+			for _, cr := range recs {
+				if !cr.C.Dead() {
+					return false
+				}
+			}
+			return true
+		}) {
 			res.Violate(evid.Sig("c06/banned-peer-connection-stays-open"),
-				fmt.Sprintf("peer %s is banned but a connection to it was continuously open for 30 s after the last call", addr), witness(nil))
+				fmt.Sprintf("peer %s is banned but a connection to it that was open after the last call was still open 60 s later", addr), witness(nil))
 		}
 	}
 
